@@ -798,3 +798,111 @@ def built_now(rule, prog, event_fn, label, ctor_names, ident="built-now", fresh_
         rule.undecidable(key, "no Suggestion constructor found behind the event's return value", fn_line(prog, event_fn))
     else:
         rule.ok(key, "every returned suggestion comes from a Suggestion constructor run on this event's path (%d source(s))" % n_src[0])
+
+
+def _variant_index(prog, e):
+    """Discriminant value an expression compares with: a constant integer, or discr(agg of a fieldless variant)."""
+    e = strip_refs(e)
+    if is_const(e, "int"):
+        return const_val(e)
+    if e.k == "discr":
+        a = strip_refs(e.a[0])
+        if a.k == "agg" and str(a.a[0]).startswith("adt:") and not a.a[1]:
+            path, _, vname = str(a.a[0])[4:].rpartition("::")
+            adt = prog.adts.get(path)
+            if adt:
+                names = [v["name"] for v in adt["variants"]]
+                if vname in names:
+                    return names.index(vname)
+    if e.k == "agg" and str(e.a[0]).startswith("adt:") and not e.a[1]:
+        path, _, vname = str(e.a[0])[4:].rpartition("::")
+        adt = prog.adts.get(path)
+        if adt:
+            names = [v["name"] for v in adt["variants"]]
+            if vname in names:
+                return names.index(vname)
+    return None
+
+
+def coded_bool_field(prog, getter):
+    """A bool option kept as a private field-less two-variant enum: if `getter` returns a bool decided by nothing but the discriminant of one
+    field F of self, and the one assignment of F in a `fn(&mut self, bool)` setter stores the variant the getter maps back to the argument
+    (getter ∘ setter = identity), returns (F, index of the variant meaning true); else None."""
+    from engine.analyses import bool_function, guards_of, direct_writes
+    b = prog.body(getter)
+    bf = bool_function(b)
+    if not bf or len(bf) != 2:
+        return None
+    F = None
+    k_true = None
+    for conds, ret in bf:
+        ret = strip_refs(ret) if ret is not None else None
+        if len(conds) != 1 or ret is None or not is_const(ret, "bool"):
+            return None
+        d, pol = conds[0]
+        d = strip_refs(d)
+        if d.k != "bin" or d.a[0] != "Eq":
+            return None
+        sides = [strip_refs(d.a[1]), strip_refs(d.a[2])]
+        fld = [x for x in sides if x.k == "discr" and self_path(x.a[0]) and len(self_path(x.a[0])) == 1]
+        oth = [x for x in sides if x not in fld]
+        if len(fld) != 1 or len(oth) != 1:
+            return None
+        f = self_path(fld[0].a[0])[0]
+        k = _variant_index(prog, oth[0])
+        if k is None or (F is not None and F != f):
+            return None
+        F = f
+        means_true = (pol is True) == bool(const_val(ret))          # Eq k holds ⇒ ret, or Eq k fails ⇒ ret
+        kt = k if means_true else 1 - k
+        if k_true is not None and k_true != kt:
+            return None
+        k_true = kt
+    owner = (prog.fns[getter].get("impl") or {}).get("self")
+    fty = {x["name"]: x["ty"] for x in prog.struct_fields(owner)}.get(F)
+    adt = prog.adts.get(fty or "")
+    if not adt or len(adt["variants"]) != 2 or any(v["fields"] for v in adt["variants"]):
+        return None
+    # the setter: the only non-constructor assignment of F, under the bool parameter alone
+    writes = []
+    for k2, f2 in prog.fns.items():
+        if (f2.get("impl") or {}).get("self") != owner or f2.get("output") in ("Self", owner) or f2.get("kind") == "Closure":
+            continue
+        kb = prog.body(k2)
+        for w in direct_writes(kb):
+            if w["op"] == "assign" and w["root"].k == "arg" and w["root"].a[0] == 1 and w["fields"] == (F,):
+                writes.append((k2, kb, w))
+    if not writes or len({k2 for k2, _, _ in writes}) != 1:
+        return None
+    seen = {}
+    from engine.analyses import sym_paths
+    for (k2, kb, w) in writes:
+        ins = prog.fns[k2].get("inputs") or []
+        if len(ins) != 2 or ins[1] != "bool":
+            return None
+        # per path of the setter (decided by the bool parameter alone): the variant stored
+        for path, env, conds in sym_paths(kb, 0, 64):
+            if w["bb"] not in [bb_ for bb_, _ in path]:
+                continue
+            pol = None
+            for (d, vals, allv, ty, sbb) in conds:
+                d0 = strip_refs(d)
+                if d0.k == "arg" and d0.a[0] == 2:
+                    pol = (vals != (0,)) if vals != "otherwise" else (0 in allv)
+                else:
+                    return None
+            if pol is None:
+                return None
+            rv_ = w["rv"]
+            ev_ = None
+            if rv_.get("k") == "use" and rv_["op"].get("k") in ("move", "copy") and not rv_["op"]["place"]["p"]:
+                ev_ = env.get(rv_["op"]["place"]["l"])          # the value the local holds on this path
+            if ev_ is None:
+                ev_ = kb.expr_rvalue(rv_, 0, env)
+            val = _variant_index(prog, ev_)
+            if val is None or (pol in seen and seen[pol] != val):
+                return None
+            seen[pol] = val
+    if seen.get(True) == k_true and seen.get(False) == 1 - k_true:
+        return F, k_true
+    return None
